@@ -39,6 +39,10 @@ ROLES = {
     "files/info.json": "InfoJson",
     "files/search.json": "SearchJson",
     "files/model.json": "ModelJson",
+    "files/search.json.tmp": "SearchJsonTmp",
+    "files/model.json.tmp": "ModelJsonTmp",
+    "files/samples_summary.json.tmp": "SummaryTmp",
+    "files/samples_info.json.tmp": "SamplesInfoTmp",
     "model.start": "ModelStart",
     "metadata": "Metadata",
     "search.log": "Log",
@@ -310,11 +314,11 @@ def tag_of_ll(x):
 def file_tag(role, path):
     """(valid, tag): content-based view of result-bearing files."""
     try:
-        if role == "Summary":
+        if role in ("Summary", "SummaryTmp"):
             d = json.load(open(path))
             ll = d["arguments"]["max_log_likelihood_sample"]["arguments"]["log_likelihood"]
             return True, tag_of_ll(ll)
-        if role in ("SamplesInfo", "SearchJson", "ModelJson", "InfoJson"):
+        if role in ("SamplesInfo", "SearchJson", "ModelJson", "InfoJson", "SamplesInfoTmp", "SearchJsonTmp", "ModelJsonTmp"):
             json.load(open(path))
             return True, None
         if role in ("Dill", "DillTmp"):
